@@ -309,6 +309,54 @@ theorem Bloom.testBitB_intersection (est : Estimator) (a b r : Bloom) (same : Bo
 theorem Bloom.pos_lt_bits (m p : Nat) (h : p < m) : p < 8 * Bloom.lengthOf m := by
   rw [Bloom.lengthOf_eq]; omega
 
+/-! ### histories of additions -/
+
+/-- a history of `add_alt` calls (a call with too few hashes raises after setting what it has) -/
+def Bloom.runAdds (b : Bloom) (xs : List (List Nat)) : Bloom := xs.foldl (fun b hs => (b.addAlt hs).1) b
+
+/-- `hashes[i] % m` for `i < k` -/
+def posOf (k m : Nat) (hs : List Nat) : List Nat := (hs.take k).map (· % m)
+
+theorem Bloom.positions_eq (b : Bloom) (hs : List Nat) : b.positions hs = posOf b.k b.m hs := rfl
+
+theorem posOf_lt (k m : Nat) (hs : List Nat) (hm : 0 < m) : ∀ p ∈ posOf k m hs, p < m := by
+  intro p hp
+  simp only [posOf, List.mem_map] at hp
+  obtain ⟨h, _, rfl⟩ := hp
+  exact Nat.mod_lt _ hm
+
+theorem Bloom.runAdds_append (b : Bloom) (xs ys : List (List Nat)) :
+    b.runAdds (xs ++ ys) = (b.runAdds xs).runAdds ys := by
+  simp [Bloom.runAdds, List.foldl_append]
+
+theorem Bloom.runAdds_spec (xs : List (List Nat)) (b : Bloom) :
+    (b.runAdds xs).k = b.k ∧ (b.runAdds xs).m = b.m ∧ (b.runAdds xs).est = b.est ∧
+    (b.runAdds xs).fpr32 = b.fpr32 ∧
+    (b.runAdds xs).bits = (xs.flatMap (posOf b.k b.m)).foldl setBitB b.bits := by
+  induction xs generalizing b with
+  | nil => exact ⟨rfl, rfl, rfl, rfl, rfl⟩
+  | cons hs xs ih =>
+      obtain ⟨a, b', c, d, e⟩ := ih (b.addAlt hs).1
+      have hrun : b.runAdds (hs :: xs) = (b.addAlt hs).1.runAdds xs := rfl
+      rw [hrun]
+      refine ⟨by rw [a, Bloom.addAlt_k], by rw [b', Bloom.addAlt_m], by rw [c, Bloom.addAlt_est],
+        by rw [d, Bloom.addAlt_fpr], ?_⟩
+      rw [e, Bloom.addAlt_bits, Bloom.addAlt_k, Bloom.addAlt_m, List.flatMap_cons, List.foldl_append,
+        Bloom.positions_eq]
+
+theorem Bloom.runAdds_wf (xs : List (List Nat)) (b : Bloom) (h : b.WF) : (b.runAdds xs).WF := by
+  induction xs generalizing b with
+  | nil => exact h
+  | cons hs xs ih => exact ih _ (Bloom.addAlt_wf b hs h)
+
+theorem Bloom.union_of_similar (est : Estimator) (a b : Bloom) (same : Bool) (h : a.similar b same = true) :
+    ∃ r, Bloom.union est a b same = some r := by
+  simp [Bloom.union, h]
+
+theorem Bloom.intersection_of_similar (est : Estimator) (a b : Bloom) (same : Bool)
+    (h : a.similar b same = true) : ∃ r, Bloom.intersection est a b same = some r := by
+  simp [Bloom.intersection, h]
+
 /-! ### population counts -/
 
 theorem length_filter_le_of_imp {α} (p q : α → Bool) (l : List α) (h : ∀ x, p x = true → q x = true) :
